@@ -12,7 +12,9 @@ CHECK = {
         {"fn": P + "vC38_lww_anyclock", "cases_quick": {"slots": [6]}, "cases_thorough": {"slots": [9]}},
         {"fn": P + "vC38_mvregister", "cases_quick": {"slots": [6], "part": [0, 1, 2]}, "cases_thorough": {"slots": [7], "part": [0, 1, 2]}},
         {"fn": P + "vC38_orset", "cases_quick": {"slots": [5], "part": [0, 1, 2]}, "cases_thorough": {"slots": [6], "part": [0, 1, 2]}, "opts": {"batch_fresh": True}},
-        {"fn": P + "vC38_ormap", "cases_quick": {"slots": [4], "part": [0, 1, 2]}, "cases_thorough": {"slots": [5], "part": [0, 1, 2]}, "opts": {"batch_fresh": True, "unwind": 20}},
+        {"fn": P + "vC38_ormap", "cases_quick": {"slots": [4], "part": [0, 1, 2]}, "cases_thorough": {"slots": [5], "part": [1, 2]}, "opts": {"batch_fresh": True, "unwind": 20}},
+        # part 0 at 5 slots decides (unsat) but needs ~23 min on an idle machine: registered at 4 slots
+        {"fn": P + "vC38_ormap", "tiers": ("thorough",), "cases": {"slots": [4], "part": [0]}, "opts": {"batch_fresh": True, "unwind": 20}},
     ],
     "opts": {"unwind": 10, "feas_from_iter": 100, "map_range": "per_entry", "map_dedup": True},
     "timeout_ms": {"quick": 400000, "thorough": 3000000},
@@ -20,7 +22,7 @@ CHECK = {
                    "States are only REACHABLE ones: 3 replicas with node ids a,b,c start empty; slot k belongs to replica k%3, which (solver's choice per slot) does nothing, performs one local mutation (any uint64 amount / any int64 timestamp / any int value / element or key from a 2-element universe) or merges the current state of one of the other two replicas. Every candidate operation of a slot is executed and the chosen result is copied by value into a fresh object by a harness helper (vC38_*Pick). "
                    "On the three final states x,y,z the harness asserts, against reference definitions written in the harness (per-node maximum; lexicographic (timestamp,node) order; lattice order of (dot store, causal context); set equality of dot lists): commutativity, associativity, idempotence, x <= x+y (nothing already present is lost unless the other side observed and removed/superseded it), well-formedness of reachable and merged states, inputs unchanged after Merge/Clone/mutators (deep snapshots), Clone shares no storage (mutating the clone's maps and slices). Counter Value() is checked to be the sum over the per-node state for ARBITRARY states (vC38_counter_value), so the per-node-state laws carry over to the value.",
     "bounds": {"replicas": 3, "element / key universe": 2, "quick": {"slots (operations incl. merges, round-robin over replicas)": {"GCounter, PNCounter, Flag, LWWRegister, MVRegister": 6, "ORSet": 5, "ORMap": 4}},
-               "thorough": {"slots": {"GCounter, PNCounter, Flag, LWWRegister": 9, "MVRegister": 7, "ORSet": 6, "ORMap": 5}},
+               "thorough": {"slots": {"GCounter, PNCounter, Flag, LWWRegister": 9, "MVRegister": 7, "ORSet": 6, "ORMap": "5 (associativity, idempotence, clone) / 4 (commutativity, upper bound; 5 slots also ran clean once, 23 min)"}},
                "amounts / timestamps / values": "full uint64 / int64 / int", "dots per element": "<= 8 (symbolic make cap)", "ORMap values": "GCounter only",
                "case split": "number of slots and the group of assertions (part) are fixed per job; operations, operands and merge sources are symbolic"},
     "assumptions": ["map iteration order is insertion order (Go's randomisation is not modelled); equality of dot lists / entries is order-insensitive",
